@@ -58,7 +58,11 @@ StmtProgs ==
             Let("U", Call("tup", <<I(1), Str("x"), D(5)>>)), Do(SetAt(V("U"), 2, Str("y"))), PrintS(<<Item(V("U"), 2), Item(V("U"), 3)>>),
             Let("T", Call("tab", <<I(2), Str("a")>>)), Do(Mem(Mem(V("T"), "at", <<I(0)>>), "concat", <<Str("z")>>)), Forall("E", V("T"), "desc", <<PutS(<<V("E")>>)>>),
             Return(Bin("+", I(40), I(2))) >> }
-JudgedStmt == {[ast |-> x, text |-> Render(x)] : x \in StmtProgs}
+\* every direction keyword against increasing, decreasing and equal bounds, with and without step: the keyword decides whether the loop runs at all
+ForProgs == { << For("I", I(a), I(b), IF st = 0 THEN NoExpr ELSE I(st), d, <<PutS(<<V("I"), Str(" ")>>)>>), P2("|"),
+                 Let("T", Call("tab", <<I(3), I(7)>>)), Forall("E", V("T"), d, <<PutS(<<V("E")>>)>>), P2("") >>
+              : a \in {1, 3}, b \in {1, 3}, st \in {0, 2}, d \in {"auto", "asc", "desc"} }
+JudgedStmt == {[ast |-> x, text |-> Render(x)] : x \in StmtProgs \cup ForProgs}
 
 RawTexts == {
   "X = \"a\\\"b\"; print X;", "X = \"a\"\"b\"; print X;", "X = \"back\\\\slash\"; print X;", "X = \"tab\\there\\nnl\"; print X;",
@@ -80,6 +84,9 @@ RawTexts == {
   "put 1 2; put \"x\"; print \"\";",
   \* expression statements that need the keyword, adjacent print arguments
   "do \"abc\".count(); print 1;", "do (1 + 2); print 2;", "do 5; print 3;", "T = tab(1, 1); do T.concat(2); T.concat(3); print T.count();", "do tab(1, 1).count(); print 4;",
+  \* names of every shape next to a parenthesis
+  "X1 = 2; print (X1) (X1 + 1);", "A_1 = 3; print (A_1) (-A_1) (A_1);", "$S = 4; print ($S) ($S + 1);", "A1B = 5; put (A1B) (A1B * 2); print \"\";", "X_ = 6; Y9 = 1; print (X_) (Y9) (X_ + Y9) (Y9);",
+  "T1 = tab(2, 1); print (T1.count()) (1 + 1);", "U2 = tup(1, \"a\"); print (U2@1) (2);", "print (pi) (1 + 1); print (true) (not false);",
   "print 5 (-1);", "print (1) (2) (3);", "X = 2; print X \"\" (X + 1);", "print \"a\" (-1) \"b\" -1;", "print 1 - 1 (- 1);", "X = 3; print (X) (-X) -X;", "print not true (not false);", "X = null; print isnull(X) typeof(X);", "X = b64enc(raw(\"hello\")); print X b64dec(X).count();" }
 
 VARIABLE p
